@@ -317,6 +317,39 @@ def _fp(path):
 
 
 # ------------------------------------------------------------------ R5
+def rule_r3c(ctx):
+    """A walrus may not rebind the iteration variable of ANY enclosing comprehension (a SyntaxError at
+    compile time, whether or not the code runs).  Loops are lowered to comprehensions, the `while`
+    template iterates over the non-reserved name `_`, tuple targets of `for` are emitted as they are:
+    a store to the loop's own user-chosen target that the For template itself places inside the
+    comprehension element collides whenever an enclosing loop iterates over the same name
+    (`while ...: for _ in r: ...`, `for i, row in rows: for i in row: ...`)."""
+    rr = RuleResult("C02-R3c", "the For template does not store its own target through a walrus inside a comprehension element")
+    rr.floor = 1
+    entry = ctx.tmpl.pending_by_kind("For")
+    reported = False
+    for pr in entry.ok_paths():
+        rr.instances += 1
+        evs, w = path_events(pr)
+        bad = None
+        for e in evs:
+            if e.kind != "store" or not getattr(e, "comp_elt", False):
+                continue
+            name = e.node.fields.get("name") if hasattr(e.node, "fields") else None
+            if isinstance(name, UPrim) and "For.target" in norm_path(name.short_path()):
+                bad = e
+        if bad is not None and not reported:
+            reported = True
+            rr.fail(
+                "C02-R3c|For|target-stored-in-element",
+                f"PendingFor ({bad.site}): the loop variable is bound by a store (walrus) to the user's name inside the element of the loop's comprehension: CPython refuses `NAME := ...` when an ENCLOSING comprehension iterates over NAME - the `while` template iterates over `_`, an outer `for i, row in ...` over `i` - so `while c: for _ in r: ...` converts to text that does not compile ('assignment expression cannot rebind comprehension iteration variable')",
+                where=str(bad.site), what="For|target-store",
+            )
+        elif bad is None:
+            rr.ok("For|target-store")
+    return rr
+
+
 def rule_r5(ctx):
     rr = RuleResult("C02-R5", "convert_code_string returns the unparser's text with nothing but newline removal applied")
     rr.floor = 1
@@ -430,4 +463,4 @@ def _host_printer(ctx):
     return rule_r9(ctx)
 
 
-RULES = [("C15-R9", _host_printer), ("C06-R8", _c06r8), ("C03-syntax", _unparser_syntax), ("C02-R1", rule_r1), ("C02-R2", rule_r2), ("C02-R3", rule_r3), ("C02-R4", rule_r4), ("C02-R5", rule_r5)]
+RULES = [("C15-R9", _host_printer), ("C06-R8", _c06r8), ("C03-syntax", _unparser_syntax), ("C02-R1", rule_r1), ("C02-R2", rule_r2), ("C02-R3", rule_r3), ("C02-R3c", rule_r3c), ("C02-R4", rule_r4), ("C02-R5", rule_r5)]
